@@ -636,10 +636,10 @@ def looks_like_date_rule(ctx):
             for x in walk_exprs(f["hir"]):
                 if x["k"] == "Lit" and x["lk"] == "str":
                     lit = x["v"]
-    ok = lit == "(\\d{4})-?(\\d{2})?"
-    ctx.obligation(ok)
-    if not ok:
-        ctx.violation("lexer/date-alike-regex", "lexer::DATE_ALIKE_REGEX", "the date look-ahead regex changed to %r" % lit)
+    # (what the regex accepts is decided by lexing date and number spellings by interpretation - X-NUMMINUS -, not by comparing
+    # its text: a rewrite that accepts the same prefixes is silent)
+    import extra2
+    extra2.number_minus_is_arithmetic(ctx)
     import interp
     it = interp.Interp()
     bounds = []
